@@ -103,11 +103,13 @@ class Interp(object):
     def _fail_fields(exc, extractors=None):
         cls = type(exc)
         ok, text = excs.safe_text(exc)
-        out = {"exception": excs.qualname(cls), "reason": text if ok else ANYTEXT}
+        out = {}
         if extractors is not None:
             out.update(extractors(exc))
         elif isinstance(exc, OSError):
             out["errno"] = exc.errno
+        # the class name and text are always recorded, whatever an extractor returns under those names
+        out.update({"exception": excs.qualname(cls), "reason": text if ok else ANYTEXT})
         return out
 
     def _ser(self, name):
